@@ -220,6 +220,8 @@ slab_e (int which, int len, int term)
   round_trip ("pw", 2, S, hm[which], len % 16 == 0, rp);
 }
 
+static const char *const wide_rounds[4] = { "$6$rounds=10000000$ab", "$5$rounds=10000000$ab", "$6$rounds=100000000$ab", "$5$rounds=100000000$ab" };
+
 int
 main (int argc, char **argv)
 {
@@ -242,8 +244,8 @@ main (int argc, char **argv)
         slab_c (a, b, c);
       else if (sscanf (vh_replay, "e:%d:%d:%d", &a, &b, &c) == 3)
         slab_e (a, b, c);
-      else if (sscanf (vh_replay, "h:%d", &a) == 1)
-        round_trip ("pw", 2, a ? "$5$rounds=100000000$ab" : "$6$rounds=100000000$ab", a ? M_SHA256 : M_SHA512, 0, vh_replay);
+      else if (sscanf (vh_replay, "h:%d", &a) == 1 && a >= 0 && a < 4)
+        round_trip ("pw", 2, wide_rounds[a], a % 2 ? M_SHA256 : M_SHA512, 0, vh_replay);
       else if (mode_c06 && !strncmp (vh_replay, "div:", 4))
         shape_diversity (atoi (vh_replay + 4), d1, d2);
       else
@@ -301,19 +303,18 @@ main (int argc, char **argv)
             slab_e (which, len, term);
     }
   vh_stat ("slab_e_done", 1);
-  if (vh_thorough)
-    {
-      /* the widest spelling of a decimal cost field: nine digits (about half a minute of CPU per hash; thorough tier only) */
-      static const char *const wide[] = { "$6$rounds=100000000$ab", "$5$rounds=100000000$ab" };
-      for (int i = 0; i < 2; i++)
-        if (vh_mine (idx++))
-          {
-            char rp[32];
-            snprintf (rp, sizeof rp, "h:%d", i);
-            round_trip ("pw", 2, wide[i], i ? M_SHA256 : M_SHA512, 0, rp);
-            vh_stat ("nine_digit_round_counts", 1);
-          }
-    }
+  {
+    /* the widest spellings of a decimal cost field: eight digits (3 s of CPU per hash) in both tiers, nine digits (half a
+       minute per hash) in the thorough tier only */
+    for (int i = 0; i < (vh_thorough ? 4 : 2); i++)
+      if (vh_mine (idx++))
+        {
+          char rp[32];
+          snprintf (rp, sizeof rp, "h:%d", i);
+          round_trip ("pw", 2, wide_rounds[i], i % 2 ? M_SHA256 : M_SHA512, 0, rp);
+          vh_stat ("wide_round_counts", 1);
+        }
+  }
   if (mode_c06)
     for (int m = 0; m < M_COUNT && !vh_expired (); m++)
       if (vh_mine ((uint64_t) m))
